@@ -228,4 +228,11 @@ func init() {
 
 	mut("C17", "the scan prefix is appended to the table's shared key prefix", "x/go/gorp/reader.go",
 		"	prefixedKey := slices.Concat(r.keyCodec.prefix, opts.prefix)", "	prefixedKey := append(r.keyCodec.prefix, opts.prefix...)\n	_ = slices.Clip[[]byte]", "C17.R9.append")
+
+	// ---------------- C15.R5
+	const lpx = "core/pkg/distribution/channel/lease_proxy.go"
+	mut("C15", "retrieve/overwrite batches skip the repeated-name pass", lpx,
+		"	namesSeen := make(set.Set[string], len(names))", "	if skipExisting {\n		return nil\n	}\n	namesSeen := make(set.Set[string], len(names))", "C15.R5.names")
+	mut("C15", "an overwritten channel is dropped from metadata but not from the engine", lpx,
+		"		storageToDelete = append(storageToDelete, ex.Storage().Key)", "		if !ex.Virtual {\n			storageToDelete = append(storageToDelete, ex.Storage().Key)\n		}", "C15.R5.names")
 }
